@@ -23,7 +23,8 @@ def instances(C):
     if hasattr(C, 'valid_instances'):
         return list(C.valid_instances)
     if issubclass(C, InputForm):
-        return ['0', '1']
+        # numbered copies, and the plain name (what `list-form-inputs w-2` and a reference without a number use)
+        return ['0', '1', None]
     return [None]
 
 
@@ -119,6 +120,9 @@ def check_form(year, C, inst):
                         v = f.threshold(tname, st)
                         if isinstance(v, bool) or not isinstance(v, numbers.Real):
                             yield ('threshold-value', f'threshold {tname!r}[{st.name}] = {v!r}')
+                        own = [val for k, val in t.items() if (st in k if isinstance(k, tuple) else st == k)]
+                        if len(own) == 1 and v != own[0]:
+                            yield ('threshold-foreign-value', f'threshold {tname!r}[{st.name}] yields {v!r}, the table of this form says {own[0]!r}')
                     except AssertionError as e:
                         yield ('threshold-lookup', f'threshold {tname!r}[{st.name}] fails: {e}')
             elif any(hasattr(m, 'name') and type(m).__name__ == type(statuses[0]).__name__ for m in members):
@@ -164,6 +168,24 @@ def check_year(year):
             n_checked += 1
             for kind, msg in check_form(year, C, inst):
                 out.append((year, C.form_name, inst, kind, msg))
+    # second sweep of all status look-ups, forms in reverse order (a look-up must not depend on which form was asked before)
+    for C in reversed(fl):
+        for inst in instances(C):
+            try:
+                f = C(instance=inst)
+            except Exception:
+                continue
+            statuses = list(status_enum(year))
+            for tname, t in f._thresholds.items():
+                if isinstance(t, dict):
+                    for st in statuses:
+                        own = [val for k, val in t.items() if (st in k if isinstance(k, tuple) else st == k)]
+                        try:
+                            v = f.threshold(tname, st)
+                        except AssertionError:
+                            continue
+                        if len(own) == 1 and v != own[0]:
+                            out.append((year, C.form_name, inst, 'threshold-foreign-value', f'threshold {tname!r}[{st.name}] yields {v!r}, the table of this form says {own[0]!r} (reverse sweep)'))
     # list-forms
     for jur in (None, 'US', 'NC', 'us', 'nc', 'VA'):
         for contains in (None, 'schedule', 'W-2', 'zzzz'):
